@@ -284,6 +284,10 @@ def generate(model: Model):
         pass
     try:
         mod, tree = _fresh("_merge")
+        for cdef in (x for x in tree.body if isinstance(x, ast.ClassDef) and x.name == "Merge"):
+            for fn in (x for x in cdef.body if isinstance(x, ast.FunctionDef) and x.name == "_get_original_predicate_columns"):
+                for st in (x for x in ast.walk(fn) if isinstance(x, ast.If) and "Elemwise" in ast.unparse(x.test)):
+                    yield "mutant", "revert:join-lets-non-rowwise-predicate-pass", "R03j", mod.rel, _drop_stmt(mod, st)
         for c in (x for x in ast.walk(tree) if isinstance(x, ast.UnaryOp) and isinstance(x.op, ast.Not) and "leftsemi" in ast.unparse(x) and "broadcast_side" in ast.unparse(x)):
             yield "mutant", "revert:leftsemi-left-broadcast", "R10f", mod.rel, _splice(mod.source, c, "True")
     except Exception:  # noqa: BLE001
